@@ -65,7 +65,8 @@ def expression_pool(model, tier):
 
 
 POINTS = [{}, {"x": 3}, {"x": 3.0}, {"x": 4}, {"y": 3}, {"x": 3, "y": 4.5}, {"y": 4.5, "x": 3},
-          {"x": 3, "y": 4.5, "long_name_2": -1}, {"x": -2.5e-05}]
+          {"x": 3, "y": 4.5, "long_name_2": -1}, {"x": -2.5e-05}, {"x": 1234567.0}, {"x": 1234568.0}, {"x": 1e22},
+          {"x": 123456789.125}, {"x": 100000.0}, {"x": -0.0}, {"x": 1e-07}, {"t": 12345678}]
 
 
 def tree_equal(a, b) -> bool:
